@@ -662,7 +662,9 @@ def do_replay(root, pid, info, path):
         return 0
     ENV["CARGO_TARGET_DIR"] = os.path.join(root, ".cache", "target")
     build = rp.get("build", "debug")
-    rc, out, dt, binp = build_harness(root, "e1", release=(build == "release"))
+    fid = int(case["f"])
+    engine = "e1" if fid < 600 else ("e2" if fid < 700 else "e4")
+    rc, out, dt, binp = build_harness(root, engine, release=(build == "release"))
     if rc != 0:
         print(out[-2000:])
         return 2
@@ -671,10 +673,12 @@ def do_replay(root, pid, info, path):
     m = re.search(r"coq=(\(.*\))", out)
     if m:
         stats_mod = None
-        for (engine, suite, builds) in info.get("suites", []):
+        for (eng, suite, builds) in info.get("suites", []):
             mod = P.SUITE_MODULES.get(suite)
             if mod:
                 stats_mod = mod if P.suite_owns(suite, int(case["f"])) else stats_mod
+        if fid >= 600:
+            stats_mod = "E4C" if fid >= 700 else ("E3C" if fid in (602, 681, 691) else "E2C")
         if stats_mod:
             d = os.path.join(root, ".cache", "replay")
             os.makedirs(d, exist_ok=True)
